@@ -69,8 +69,51 @@ def replay_round_trip(info, ce):
     return dict(status='not-reproduced', detail='inverse helper reconstructs the record and leaves its argument alone on the battery')
 
 
+def replay_array(info, ce):
+    """array-level functions: generate_fa_spectrum(sig, n_pad) / calc_fa_spectrum(sig, n=, p2_plus=) against numpy's DFT of the padded record"""
+    import eqsig
+    from eqsig.fns import frequency as fr
+    fn, how, p = info.get('fn'), info.get('how'), info.get('p')
+    rng = np.random.RandomState(4)
+    tried = 0
+    for cls in (eqsig.Signal, eqsig.AccSignal):
+        for n in (3, 5, 8, 12, 16, 33, 300):
+            x = rng.randn(n)
+            for dt in (0.01, 0.25):
+                nd = 2 ** int(np.ceil(np.log2(n)))
+                if how == 'padded':
+                    reqs = [(dict(n_pad=True), nd)]
+                elif how == 'unpadded':
+                    reqs = [(dict(n_pad=False) if fn == 'generate_fa_spectrum' else {}, n)]
+                elif how == 'p2_plus':
+                    reqs = [(dict(p2_plus=p), nd * 2 ** p)]
+                else:
+                    reqs = [(dict(n=N), N) for N in (2, 3, n, n + 1, nd, 2 * nd + 1)]
+                for kw, N in reqs:
+                    sig = cls(x.copy(), dt)
+                    try:
+                        fa, fq = getattr(fr, fn)(sig, **kw)
+                    except Exception as e:
+                        return dict(status='confirmed', detail='%s(%s) raised %s: %s' % (fn, kw, type(e).__name__, e), input={'values': x.tolist(), 'dt': dt, 'kwargs': kw})
+                    tried += 1
+                    wfa, wfr = want(x, dt, N)
+                    bad = None
+                    if np.shape(fa) != wfa.shape or np.shape(fq) != wfr.shape:
+                        bad = 'half-spectrum length %s / %s, expected %d (N=%d)' % (np.shape(fa), np.shape(fq), N // 2, N)
+                    elif np.max(np.abs(fa - wfa)) > 1e-9 * max(1.0, np.max(np.abs(wfa))):
+                        bad = 'spectrum is not dt*DFT of the record padded to N=%d' % N
+                    elif np.max(np.abs(fq - wfr)) > 1e-9 * max(1.0, np.max(np.abs(wfr))):
+                        bad = 'frequency grid is not k/(N*dt) for N=%d' % N
+                    if bad:
+                        return dict(status='confirmed', detail='%s(sig, %s), npts=%d: %s' % (fn, kw, n, bad), observed={'class': cls.__name__},
+                                    input={'values': x.tolist(), 'dt': dt, 'kwargs': kw})
+    return dict(status='not-reproduced', detail='%s equals dt*DFT of the padded record on %d battery calls' % (fn, tried))
+
+
 def replay(info, ce):
     import eqsig
+    if info.get('op') == 'array':
+        return replay_array(info, ce)
     if info.get('op') == 'round_trip':
         return replay_round_trip(info, ce)
     if info.get('op') == 'max_fa_period':
